@@ -18,6 +18,7 @@ private:
   TupleSubstitutes tupleSubstitutes{};
   NodeSubstitutes nodeSubstitutes{};
   NameSubstitutes nameSubstitutes{};
+  NameSubstitutes tupleNames{};
   uint32_t localVarBase{ 0 };
 
 public:
